@@ -341,11 +341,13 @@ func (fv *FV) applyContract(fr *Frame, st *State, c *Contract, args []Value, arg
 	for _, m := range locs {
 		fv.frameCheckLoc(st, m, x, calleeName, ord)
 	}
-	fv.havoc(st, locs, "h_"+calleeName)
-	// the callee may allocate
+	// the callee may allocate: the watermark moves before the havoc, so that a havoced reference cell may hold an object
+	// the callee created (with the old watermark "modifies x.f; ensures fresh(x.f)" made the path contradictory, i.e. every
+	// obligation after such a call was discharged vacuously)
 	nwm := fv.fresh("wm", IntSort)
 	st.assume(Ge(nwm, st.wm))
 	st.wm = nwm
+	fv.havoc(st, locs, "h_"+calleeName)
 	if len(c.Results) != results.Len() {
 		fv.fail("contract %s (%s): %d results declared, function has %d", c.Key, c.Pos, len(c.Results), results.Len())
 	}
@@ -767,6 +769,12 @@ func (fv *FV) loopEnter(fr *Frame, st *State, li *loopInfo) {
 		for _, m := range locs {
 			fv.frameCheckLoc(st, m, li.head.Instrs[0], fmt.Sprintf("loop %d", li.ordinal), 1)
 		}
+	}
+	// earlier iterations may have allocated: move the watermark before the havoc (see the call rule)
+	{
+		nwm0 := fv.fresh("wm", IntSort)
+		st.assume(Ge(nwm0, st.wm))
+		st.wm = nwm0
 	}
 	fv.havocFramed(st, locs, fmt.Sprintf("loop%d", li.ordinal))
 	if lc.HasMod {
